@@ -189,9 +189,9 @@ func doReplays(prop string, results []*harnessResult, tier string) bool {
 			tags = append(tags, t)
 		}
 		sort.Strings(tags)
-		maxW := 4
+		maxW := 80
 		if tier == "thorough" {
-			maxW = 12
+			maxW = 200
 		}
 		for n, t := range tags {
 			if n >= maxW && t != "end" {
